@@ -36,6 +36,34 @@ def h2f(s: str) -> float:
     return struct.unpack("<d", struct.pack("<Q", int(s, 16)))[0]
 
 
+LAYOUTS = ("C", "F", "strided", "readonly", "negstride")
+
+
+def relayout(a, k):
+    """the same array VALUES in another memory layout, chosen by `k` (any hashable / int): C-contiguous, Fortran order, a strided
+    view into a larger buffer, a read-only array, a view with a negative stride.  The objects of orix are defined by the values
+    they are given; which buffer holds them must not matter."""
+    import numpy as np
+    a = np.asarray(a)
+    import zlib
+    mode = LAYOUTS[(k if isinstance(k, int) else zlib.crc32(repr(k).encode())) % len(LAYOUTS)]   # stable across processes
+    if mode == "C" or a.size == 0 or a.ndim == 0:
+        return np.ascontiguousarray(a)
+    if mode == "F":
+        return np.asfortranarray(a)
+    if mode == "readonly":
+        b = np.array(a, copy=True)
+        b.setflags(write=False)
+        return b
+    if mode == "strided":
+        big = np.empty(a.shape[:-1] + (2 * a.shape[-1],), dtype=a.dtype)
+        big[...] = np.nan if a.dtype.kind == "f" else 0
+        big[..., ::2] = a
+        return big[..., ::2]
+    rev = np.array(a[..., ::-1], copy=True)
+    return rev[..., ::-1]
+
+
 def numba_cache_dir():
     h = hashlib.blake2b(digest_size=10)
     for root, dirs, files in sorted(os.walk(os.path.join(REPO, "orix"))):
